@@ -558,8 +558,8 @@ func ruleErrChain(c *Ctx) {
 
 		// ---- MISSING-member (containers) ------------------------------------------
 		for _, fn := range b.srcFuncs(b.Lib) {
-			if recvTypeName(fn) != "partialDoc" || errResultIndex(fn) < 0 {
-				continue
+			if recvTypeName(fn) != "partialDoc" || errResultIndex(fn) < 0 || !isContainerImplMethod(fn) {
+				continue // only the container-interface methods report absence to the handlers
 			}
 			ei := errResultIndex(fn)
 			allInstrs(fn, func(i ssa.Instruction) {
